@@ -375,6 +375,17 @@ def fixed() -> list:
     G.append([Rl(A(D, R(1), plus, n), A(D, n))])
     G.append([Rl(A(D, Gather(comma, n), Gather(plus, n)), A("y", Plus(one), Plus(one), Plus(one)))])
     G.append([Rl(A("a", Not(k), n), A("b", k))])                                  # exactly one keyword: NAME must still match its substrings
+    # helper rules are shared by structure: groups that differ only in a separator / a repetition kind / a lookahead sign / a token
+    G.append([Rl(A("a", plus, Group(A("g", Gather(comma, n), one)), plus), A("b", one, Group(A("g", Gather(plus, n), one)), one))])
+    G.append([Rl(A("a", plus, Group(A("g", Star(n), one)), plus), A("b", one, Group(A("g", Plus(n), one)), one))])
+    G.append([Rl(A("a", plus, Group(A("g", And(n), n)), plus), A("b", one, Group(A("g", Not(n), one)), one))])
+    G.append([Rl(A("a", plus, Group(A("g", Opt(n), one)), plus), A("b", one, Group(A("g", Opt(one), one)), one))])
+    G.append([Rl(A("a", plus, Group(A("g", Gather(comma, n), one), A("h", n)), plus), A("b", comma, Group(A("g", Gather(plus, n), one), A("h", n)), comma))])
+    # a keyword that occurs only as a separator / only under a lookahead / only forced / only inside a group is still a keyword
+    G.append([Rl(A("a", Gather(k, n), plus), A("b", n, one))])
+    G.append([Rl(A("a", Not(k), n, plus), A("b", n, comma))])
+    G.append([Rl(A("a", n, Opt(Group(A("g", k, n))), plus), A("b", n))])
+    G.append([Rl(A("a", Star(Group(A("g", n, Opt(k)))), one))])
     return G
 
 
